@@ -108,6 +108,11 @@ class Evaluator:
 
     def truth(self, node: ast.expr, st: AbsState) -> bool | None:
         override = st.get(src(node))
+        if override is None and isinstance(node, ast.Compare) and len(node.ops) == 1:
+            # the same comparison written the other way round
+            flip = {ast.Lt: ast.Gt, ast.Gt: ast.Lt, ast.LtE: ast.GtE, ast.GtE: ast.LtE, ast.Eq: ast.Eq, ast.NotEq: ast.NotEq, ast.Is: ast.Is, ast.IsNot: ast.IsNot}.get(type(node.ops[0]))
+            if flip is not None:
+                override = st.get(src(ast.Compare(left=node.comparators[0], ops=[flip()], comparators=[node.left])))
         if isinstance(override, ConstVal) and not isinstance(node, (ast.Name, ast.Constant)):
             return bool(override.value)
         if isinstance(node, ast.UnaryOp) and isinstance(node.op, ast.Not):
